@@ -437,6 +437,7 @@ impl<'w, 'k, W: Write> Struct<'w, 'k, W> {
     where
         T: ?Sized + Serialize,
     {
+        let len = self.children.len();
         let ser = ContentSerializer {
             writer: &mut self.children,
             level: self.ser.ser.level,
@@ -459,8 +460,12 @@ impl<'w, 'k, W: Write> Struct<'w, 'k, W> {
                 key: XmlName::try_from(key)?,
                 ser,
             })?;
-            // Element was written so we need to indent next field unless it is a text field
-            self.write_indent = true;
+            // Element was written so we need to indent next field unless it is a text field.
+            // If nothing was written (an empty sequence), the state is not changed, otherwise
+            // the indent could be written right after a text
+            if self.children.len() != len {
+                self.write_indent = true;
+            }
         }
         Ok(())
     }
